@@ -36,6 +36,7 @@ type LoopSum struct {
 	Parent int
 	Over   *Term   // map range: the map
 	Cond   *Term   // condition under which the header continues into the body
+	Entry  *Term   // condition (within the enclosing region) under which the loop is reached at all
 	Exits  []*Term // conditions (within one iteration) of leaving the loop other than through the header
 	Vars   []LoopVar
 	Pos    token.Pos
@@ -734,7 +735,14 @@ func (s *summarizer) allocStores(a *ssa.Alloc) (init, late []allocStore, escapes
 				escapes = true
 				uses = append(uses, use{r, nil})
 			case *ssa.DebugRef:
+			case *ssa.UnOp:
+				uses = append(uses, use{r, nil}) // load
 			default:
+				// the address flows on as a value (interface conversion, phi, slice of an array, return, ...):
+				// whoever receives it may write through it
+				if _, isRet := r.(*ssa.Return); !isRet {
+					escapes = true
+				}
 				uses = append(uses, use{r, nil})
 			}
 		}
@@ -871,7 +879,7 @@ func (s *summarizer) loadTerm(x *ssa.UnOp) *Term {
 			return s.structFromStores(a, init, derefType(a.Type()))
 		}
 		// single-assignment variable written in a loop body before use (range variable copy)
-		if len(init) == 0 && len(late) == 1 && late[0].field == "" && !escapes || (len(init) == 0 && len(late) == 1 && late[0].field == "" && s.storeDominates(late[0].st, x)) {
+		if len(init) == 0 && len(late) == 1 && late[0].field == "" && (s.definesBeforeUse(a, late[0].st) || s.storeDominates(late[0].st, x)) {
 			return s.term(late[0].st.Val)
 		}
 		return typed(&Term{Op: "load", Args: []*Term{s.allocTerm(a, true)}}, x.Type())
@@ -1189,6 +1197,30 @@ func (s *summarizer) calleeName(fn *ssa.Function) string {
 
 const specPrefix = "Spec_"
 
+// deferredCallTerm: the callee (a function literal is registered for recursive comparison) and the arguments of a
+// deferred or spawned call.
+func (s *summarizer) deferredCallTerm(cm *ssa.CallCommon) *Term {
+	var args []*Term
+	name := "dyn"
+	switch {
+	case cm.IsInvoke():
+		name = "invoke:" + cm.Method.Name()
+		args = append(args, s.term(cm.Value))
+	case cm.StaticCallee() != nil && cm.StaticCallee().Parent() == nil:
+		name = s.calleeName(cm.StaticCallee())
+	default:
+		if b, ok := cm.Value.(*ssa.Builtin); ok {
+			name = "builtin:" + b.Name()
+		} else {
+			args = append(args, s.term(cm.Value))
+		}
+	}
+	for _, a := range cm.Args {
+		args = append(args, s.term(a))
+	}
+	return &Term{Op: "call", Val: name, Args: args}
+}
+
 func (s *summarizer) callTerm(x *ssa.Call) *Term {
 	cm := x.Common()
 	var args []*Term
@@ -1386,7 +1418,11 @@ func (s *summarizer) blockEffects(b *ssa.BasicBlock, region int, guard *Term, em
 			if s.isEffectCall(x) {
 				emit(Effect{"call", region, guard, []*Term{s.term(x)}, x.Pos()})
 			}
-		case *ssa.Go, *ssa.Defer, *ssa.Send, *ssa.Select:
+		case *ssa.Go:
+			emit(Effect{"go", region, guard, []*Term{s.deferredCallTerm(&x.Call)}, in.Pos()})
+		case *ssa.Defer:
+			emit(Effect{"defer", region, guard, []*Term{s.deferredCallTerm(&x.Call)}, in.Pos()})
+		case *ssa.Send, *ssa.Select:
 			emit(Effect{"unk:" + fmt.Sprintf("%T", in), region, guard, nil, in.Pos()})
 		}
 	}
@@ -1440,6 +1476,7 @@ func (s *summarizer) collect() {
 		} else {
 			ls.Cond = tTrue()
 		}
+		ls.Entry = simplifyBool(s.pc(h))
 		for _, in := range h.Instrs {
 			switch x := in.(type) {
 			case *ssa.Next:
